@@ -218,6 +218,11 @@ def parse_sim_trace(path):
                 out.append(cur)
             cur = (act, [])
             continue
+        if line.startswith('====') or line.startswith('----'):
+            if cur is not None:
+                out.append(cur)
+                cur = None
+            continue
         if cur is not None and line.strip():
             cur[1].append(line)
     if cur is not None:
